@@ -625,7 +625,7 @@ impl World {
             trace: Trace::default(),
             rng: Rng::new(util::mix(seed, 0x77)),
             stepping: Stepping::Lazy,
-            faults: vec![LinkFaults::default(); 4],
+            faults: vec![LinkFaults::default(); 6],
             pending: Vec::new(),
             seq: 0,
             record_gates: false,
